@@ -221,6 +221,14 @@ def b_set_sub(ex, a, b, st):
     raise TypeError("set difference with an opaque value")
 
 
+def n_zset_difference(ex, st, args, kwargs):
+    """s.difference(*others) = s - other1 - other2 ... (method spelling of the operator)"""
+    out = args[0]
+    for other in args[1:]:
+        out = b_set_sub(ex, out, other, st)
+    yield st, out
+
+
 def n_super(ex, st, args, kwargs):
     """super() inside a PoolSum method: Basic.free_symbols = union of the free symbols of the args; an index tuple
     (i, (numbers...)) contributes {i}."""
@@ -254,6 +262,7 @@ def executor(tag: str) -> XExecutor:
     ex.natives.update({
         "itertools.product": n_product, "sp.Add": n_add, "obj.subs": n_subs, "obj.xreplace": n_xreplace, "obj.doit": n_doit,
         "sp.sympify": n_sympify, "sp.Expr.__new__": n_expr_new, "super": n_super, "zset.__contains__": n_zset_contains,
+        "zset.difference": n_zset_difference,
     })
     ex.native_objs[id(PoolSum)] = n_poolsum_ctor
     ex.obj_attrs["free_symbols"] = a_free_symbols
